@@ -871,7 +871,7 @@ Theorem ts_roundtrip o panel vals :
 Proof.
   intros Ho Hne Hp Hv. pose proof Ho as (_ & _ & Huv & _ & Hel & Hc).
   eexists. split.
-  - unfold write_ts.
+  - unfold write_ts, write_ts_with.
     assert (G1 : negb (len panel =? len vals) && (0 <? len vals) = false).
     { destruct Hv as [[_ ->] | (_ & Hl & _)]; [apply andb_false_r|].
       unfold len. rewrite Hl, Z.eqb_refl. reflexivity. }
@@ -929,7 +929,7 @@ Lemma write_ts_rejects_iff o panel vals :
   (List.length panel <> List.length vals /\ vals <> []) \/
   (o_equal_length o = true /\ o_series_length o = -1).
 Proof.
-  unfold write_ts, len.
+  unfold write_ts, write_ts_with, len.
   destruct (negb (Z.of_nat (List.length panel) =? Z.of_nat (List.length vals)) &&
             (0 <? Z.of_nat (List.length vals))) eqn:E1.
   - split; [|reflexivity]. intros _. left. destruct vals; [cbn in E1; lia|]. split; [lia|congruence].
@@ -1249,3 +1249,39 @@ Proof.
   rewrite !app_length. rewrite (parse_ts_labels_match_instances _ _ _ Htr).
   rewrite (parse_ts_labels_match_instances _ _ _ Hte). reflexivity.
 Qed.
+
+(* ------------------------------------------------------------------ non-vacuity *)
+
+Definition ex_opts : wopts :=
+  mkW (L "Demo") false true [L "Aa"; L "b"] true 3 [L "# a comment"; L "second line"].
+Definition ex_panel : list series :=
+  [[L " 1.000000e+00"; L "-2.500000E-06"; L " 3.000000e+09"]; [L "0.1"; L "7"; L "-0.25"]].
+Definition ex_vals : list str := [L "Aa"; L "b"].
+Definition ex_header : list str := [L "% comment"; L "@relation demo"; L "@attribute a0 numeric"].
+
+Lemma ex_hypotheses :
+  opts_ok ex_opts /\ o_labels ex_opts <> [] /\ arff_header_ok ex_header /\ ex_panel <> [] /\
+  Forall row_ok ex_panel /\ Forall (Forall (fun t => has ch_tab t = false)) ex_panel /\
+  (forall r, In r ex_panel -> List.length r = 3%nat) /\
+  Forall clab_ok ex_vals /\ List.length ex_vals = List.length ex_panel /\
+  vals_ok ex_opts ex_panel ex_vals.
+Proof.
+  assert (Hl : Forall clab_ok ex_vals).
+  { repeat constructor; try discriminate. }
+  repeat split; try discriminate; try exact Hl.
+  - repeat constructor; discriminate.
+  - intros _. discriminate.
+  - exists (L " a comment"). reflexivity.
+  - repeat constructor.
+  - repeat constructor; discriminate.
+  - repeat constructor.
+  - intros r [<-|[<-|[]]]; reflexivity.
+  - right. split; [discriminate|]. split; [reflexivity|]. repeat constructor; discriminate.
+Qed.
+
+Lemma ex_roundtrip :
+  exists lines, write_ts ex_opts ex_panel ex_vals = Ok lines /\ List.length lines = 11%nat /\
+    parse_ts lines =
+    Ok ([[[L "1.000000e+00"; L "-2.500000e-06"; L "3.000000e+09"]]; [[L "0.1"; L "7"; L "-0.25"]]],
+        Some [L "aa"; L "b"]).
+Proof. eexists. split; [reflexivity|]. split; reflexivity. Qed.
